@@ -5,7 +5,7 @@ import random
 
 from . import tables
 from .constants import limbs
-from .core import Ctx
+from .core import Ctx, limited
 
 
 def classes():
@@ -26,7 +26,7 @@ def _c(x, d):
 
 def _safe(fn, d):
     try:
-        v = fn()
+        v = limited(fn, 300)
         return _c(v, d)
     except Exception as e:  # noqa: BLE001
         return f"EXC:{type(e).__name__}:{e}"[:120]
